@@ -77,9 +77,10 @@ def check_memory(chk, prog, env, model, tier):
     paths = 0
     for provider in H.providers(prog):
         rule = TokenRule()
-        # the claim evaluation is analysed as its own entry below (modular): here it is its outcome summary
-        it = Interp(prog, unit, model=model, rule=rule, budget=1500000,
-                    hooks=H.std_hooks(env, extra={'__verify_claims': claims_summary_checked(rule)}))
+        # the claim evaluation is analysed as its own entry below (modular): here it is its outcome summary;
+        # the thorough tier cross-validates the decomposition by inlining everything
+        hooks = H.std_hooks(env) if tier == 'thorough' else H.std_hooks(env, extra={'__verify_claims': claims_summary_checked(rule)})
+        it = Interp(prog, unit, model=model, rule=rule, budget=6000000 if tier == 'thorough' else 1500000, hooks=hooks)
         st = State()
         o = sym_checker(st, env)
         H.bind_provider(st, provider)
